@@ -38,6 +38,17 @@ func (f *Frame) instr(b *ssa.BasicBlock, ins ssa.Instruction, st *State) {
 	case *ssa.DebugRef:
 	case *ssa.Alloc:
 		el := x.Type().(*types.Pointer).Elem()
+		if at, ok := el.Underlying().(*types.Array); ok && at.Len() > 0 && isByte(at.Elem()) {
+			// a non-empty local byte array (digest): a cell holding a byte string
+			name := x.Comment
+			if name == "" {
+				name = x.Name()
+			}
+			c := g.newCell(f.prefix+name, "Str", el)
+			st.cells[c] = Val{Sort: "Str", Term: g.fresh(f.name(x)+"_zero", "Str"), GoT: el}
+			f.vals[x] = Val{Ptr: &Addr{Cell: c}, GoT: x.Type()}
+			return
+		}
 		if at, ok := el.Underlying().(*types.Array); ok {
 			es := g.sorts.sortOf(at.Elem())
 			h := g.sorts.heapForElem(es)
@@ -602,6 +613,12 @@ func (f *Frame) sliceOp(x *ssa.Slice, st *State, reach string) {
 	}
 	switch x.X.Type().Underlying().(type) {
 	case *types.Pointer: // *[N]T
+		if base.Ptr != nil && base.Ptr.Cell != nil && base.Ptr.Cell.sort == "Str" && x.Low == nil && x.High == nil {
+			// a local [N]byte held as a byte string (digest values): sum[:] is the string itself
+			v := g.load(st, base.Ptr, base.Ptr.Cell.goT)
+			f.vals[x] = Val{Sort: "Str", Term: v.Term, GoT: x.Type()}
+			return
+		}
 		if base.Ptr == nil || !base.Ptr.Base {
 			g.fail("%s: slicing a pointer to a non-local array", f.fn.Name())
 		}
@@ -1548,4 +1565,9 @@ func (f *Frame) callEffects(c *ssa.CallCommon, li *loopInfo, depth int, argMap m
 	if !pure {
 		everything()
 	}
+}
+
+func isByte(t types.Type) bool {
+	b, ok := t.Underlying().(*types.Basic)
+	return ok && (b.Kind() == types.Uint8 || b.Kind() == types.Byte)
 }
